@@ -177,7 +177,29 @@ func buildProperty(ww *conversionVisitor, node *sourcewalk.PropertyNode) (*descr
 	return fieldDesc, nil
 }
 
+// buildField converts the field and registers the import of every annotation
+// file whose extension ended up on the field, so that a file links regardless
+// of what else it declares.
 func buildField(ww *conversionVisitor, node sourcewalk.FieldNode) (*descriptorpb.FieldDescriptorProto, error) {
+	desc, err := buildFieldType(ww, node)
+	if err != nil {
+		return nil, err
+	}
+	if desc.Options != nil {
+		if proto.HasExtension(desc.Options, validate.E_Field) {
+			ww.file.ensureImport(bufValidateImport)
+		}
+		if proto.HasExtension(desc.Options, list_j5pb.E_Field) {
+			ww.file.ensureImport(j5ListAnnotationsImport)
+		}
+		if proto.HasExtension(desc.Options, ext_j5pb.E_Field) || proto.HasExtension(desc.Options, ext_j5pb.E_Key) {
+			ww.file.ensureImport(j5ExtImport)
+		}
+	}
+	return desc, nil
+}
+
+func buildFieldType(ww *conversionVisitor, node sourcewalk.FieldNode) (*descriptorpb.FieldDescriptorProto, error) {
 	desc := &descriptorpb.FieldDescriptorProto{
 		Options: &descriptorpb.FieldOptions{},
 	}
